@@ -11,5 +11,11 @@ git -C /repo archive HEAD | tar -x -C "$D"
 for id in "$@"; do
   out=$(VERIF_REPO="$D" VERIF_OUT="$D/.verif-out" VERIF_DIR=/verif /verif/check "$id" "${TIER:-quick}" 2>&1); rc=$?
   echo "seed=$(basename $(dirname "$PATCH")) check=$id rc=$rc $(echo "$out" | tail -1 | cut -c1-160)"
-  echo "$out" | grep -a -m3 -A2 "^VIOLATION\|^BROKEN" | cut -c1-300
+  echo "$out" | grep -a -m3 "^BROKEN" | cut -c1-300
+  # signatures of the violations found (replay files live in the scratch copy and go away with it)
+  for f in $(ls "$D/.verif-out/replays/$id/"*.json 2>/dev/null | head -4); do
+    python3 -c "import json,sys; d=json.load(open(sys.argv[1])); print('  signature:', d['signature'][:120], '| sub:', d['sub'], '| count:', d.get('count')); print('    input:', json.dumps(d['input'])[:400])" "$f"
+  done
+  if [ -n "${SEED_KEEP:-}" ]; then mkdir -p "$SEED_KEEP"; f=$(ls "$D/.verif-out/replays/$id/"*.json 2>/dev/null | head -1); [ -n "$f" ] && cp "$f" "$SEED_KEEP/$id-replay.json"; fi
+  rm -rf "$D/.verif-out/replays"
 done
